@@ -243,10 +243,12 @@ def lastRib (tr : List StepObs) : List DestObs :=
   | none => []
 
 /-- the reference checker with the optional service-feed observation -/
-def checkAll (cfg : Cfg) (ops : List Op) (tr : List StepObs) (feed : Option (List (Addr × Nat))) : Verdict :=
-  match check cfg ops tr, feed with
-  | .ok, some fs => checkFeed (lastRib tr) fs
-  | v, _ => v
+def checkAll (cfg : Cfg) (ops : List Op) (tr : List StepObs) (order : Bool)
+    (feed : Option (List (Addr × Nat))) : Verdict :=
+  if !order then .fail 0 "unregister-without-registration"
+  else match check cfg ops tr, feed with
+    | .ok, some fs => checkFeed (lastRib tr) fs
+    | v, _ => v
 
 -- ---------------------------------------------------------------- service-loop refinement
 
